@@ -108,6 +108,24 @@ def run(tier, seed):
                     vals.append(src == ("v", au.params[1].id))
             rep.check(rid, len(vals) >= 2 and all(vals), "actime and modtime are both the timestamp parameter (%d stores)" % len(vals), au.file,
                       None if (len(vals) >= 2 and all(vals)) else "a store in lha_arch_utime writes something else than the timestamp parameter", function=au.cname, obj="utimbuf")
+            # the header's timestamp is an unsigned 32-bit count of seconds: on its way into the (wider) time_t it is zero-extended; a sign
+            # extension turns every time from 2038-01-19 on into a date before 1970
+            sx = []
+            for st in au.insts():
+                if st.op == "store":
+                    o_ = st.ops[0]
+                    for _ in range(6):
+                        d_ = au.defn(o_)
+                        if d_ is None or d_.is_param:
+                            break
+                        if d_.op == "sext":
+                            sx.append(st)
+                        if d_.op in ("zext", "sext", "trunc", "bitcast"):
+                            o_ = d_.ops[0]
+                            continue
+                        break
+            rep.check(rid, not sx, "the timestamp is widened to time_t without sign extension", au.file,
+                      None if not sx else "sign-extended at %s" % sx[0].where(), function=au.cname, obj="utime-widen")
 
         # the converse: a recorded time is never skipped - in the function that applies times, every way past the call carries timestamp == 0
         for f, c in sites("lha_arch_utime"):
